@@ -1,6 +1,9 @@
 import PpciVerif.Model.LinkReloc
 import PpciVerif.Spec.RelocSem
 import PpciVerif.Proofs.LinkReloc
+import PpciVerif.Proofs.LinkRelocList
+import PpciVerif.Proofs.Resolve
+import PpciVerif.Spec.LinkGuard
 import PpciVerif.Proofs.Reloc
 import PpciVerif.Proofs.RelocRv2
 import PpciVerif.Proofs.RelocX86
@@ -24,7 +27,7 @@ rejects (`Props.C10.*_accept_iff`, `*_rejects*`).  Relocation types of the other
 and checked against the Spec decoders by the harness only).
 -/
 namespace Props.C11
-open Model.LinkReloc Model.Reloc Spec.RelocSem Proofs.LinkReloc Proofs.Reloc
+open Model.LinkReloc Model.Reloc Spec.RelocSem Spec.LinkGuard Proofs.LinkReloc Proofs.Reloc
 
 /-! ## the mechanism -/
 
@@ -282,6 +285,60 @@ theorem riscv_rel_pair_mod {S P : Int} {dhi dlo ohi olo : List Nat} (h1 : dhi.le
     (hb1 : ∀ b ∈ dhi, b < 256) (h2 : dlo.length = 4)
     (hhi : Riscv.relImm20 S dhi P = .ok ohi) (hlo : Riscv.relImm12 S dlo (P + 4) = .ok olo) :
     rvHiLo (wordLE ohi) (wordLE olo) = Spec.Bits.wrapU 32 (S - P) := rel_pair h1 hb1 h2 hhi hlo
+
+/-! ## the whole link: `do_relocations` over all relocations of the output object
+
+`secs`, `syms`, `rs` are the sections (with their final addresses), symbols and relocation entries of the merged and
+laid-out output object — exactly the state C12's theorems describe (`Model.Linker`: `mergeObjects` then
+`layoutSections`; its `Obj.sections/symbols/relocs` with `address`/`data`, `value`/`section`, `typ/symbolId/section/offset/addend`
+are the fields used here).  `sitesDisjoint` is decidable and is checked by the harness on every real link
+(compiled programs: always true; ppci never emits two relocations into the same bytes). -/
+
+/-- AFTER A SUCCESSFUL LINK EVERY RELOCATION SITE DESIGNATES ITS SYMBOL.  For every relocation `r` of the list: with
+    `S` the final value of its symbol and `P` the final address of its site, if the reference is `resolvable`
+    (representable + the standing assumptions, `Spec.LinkGuard`), the site bytes of the OUTPUT, read with the ISA
+    decoder, designate `target = S` (`S + A` for x86_64 `rel32`). -/
+theorem all_sites_resolve_partial {isa : String} {syms : List Sym} {rs : List RelocEntry} {secs secs' : List Sec}
+    (h : doRelocations isa syms secs rs = .ok secs') (hd : sitesDisjoint isa rs = true)
+    (hbytes : ∀ s ∈ secs, ∀ x ∈ s.data, x < 256) :
+    ∀ r ∈ rs, ∃ S sec size,
+      symbolValue secs syms r.symbolId = .ok S ∧ getSec secs r.sect = some sec ∧ relocSize isa r.relocType = some size
+      ∧ (resolvable isa r.relocType r.addend S (sec.address + r.offset) (slice sec.data r.offset size) →
+          decodeTarget isa r.relocType (linkedSite secs' r size) (sec.address + r.offset)
+            = some (target isa r.relocType r.addend S)) := by
+  intro r hr
+  obtain ⟨S, sec, size, out, e1, e2, e3, e4, e5, sec', g1, _, g3⟩ := doRelocations_sites h hd r hr
+  refine ⟨S, sec, size, e1, e2, e3, fun hg => ?_⟩
+  have hb := bytes_slice (hbytes sec (List.mem_of_find?_eq_some e2)) r.offset size
+  have : linkedSite secs' r size = out := by simp [linkedSite, g1, g3]
+  rw [this]
+  exact apply_resolves e5 (by rw [e4]; exact e3) hb hg
+
+/-- …and every byte that is not part of a relocation site is the byte of the merged input (same sections, same
+    addresses, same lengths): relocation is the ONLY thing that distinguishes the output image from C12's content. -/
+theorem bytes_outside_sites_unchanged {isa : String} {syms : List Sym} {rs : List RelocEntry} {secs secs' : List Sec}
+    (h : doRelocations isa syms secs rs = .ok secs') :
+    ∀ n, (getSec secs' n = none ↔ getSec secs n = none) ∧
+      ∀ s, getSec secs n = some s → ∃ s', getSec secs' n = some s' ∧ s'.address = s.address
+        ∧ s'.data.length = s.data.length
+        ∧ ∀ i, (∀ r ∈ rs, ¬ inSite isa r n i) → s'.data[i]? = s.data[i]? :=
+  doRelocations_frame h
+
+/-- symbol values are not affected by relocation (they depend on section addresses only) -/
+theorem symbol_values_stable {isa : String} {syms : List Sym} {rs : List RelocEntry} {secs secs' : List Sec}
+    (h : doRelocations isa syms secs rs = .ok secs') (id : Nat) :
+    symbolValue secs' syms id = symbolValue secs syms id :=
+  symbolValue_frame (doRelocations_frame h) syms id
+
+/-! non-vacuity: three relocations of two types in one section, disjoint sites -/
+example : sitesDisjoint "riscv" [⟨"b_imm20", 0, "code", 0, 0⟩, ⟨"b_imm12", 0, "code", 4, 0⟩, ⟨"b_imm20", 0, "code", 8, 0⟩] = true := by decide
+example : sitesDisjoint "riscv" [⟨"b_imm20", 0, "code", 0, 0⟩, ⟨"b_imm12", 0, "code", 2, 0⟩] = false := by decide
+example : doRelocations "riscv" [⟨0, false, 0x10, some "far"⟩]
+    [⟨"code", 0x1000, [0x6f, 0, 0, 0, 0x63, 0, 0, 0]⟩, ⟨"far", 0x1100, [0, 0]⟩]
+    [⟨"b_imm20", 0, "code", 0, 0⟩, ⟨"b_imm12", 0, "code", 4, 0⟩]
+    = .ok [⟨"code", 0x1000, [0x6f, 0, 0, 0x11, 0x63, 0x06, 0, 0x10]⟩, ⟨"far", 0x1100, [0, 0]⟩] := by decide
+example : decodeTarget "riscv" "b_imm20" [0x6f, 0, 0, 0x11] 0x1000 = some 0x1110
+    ∧ decodeTarget "riscv" "b_imm12" [0x63, 0x06, 0, 0x10] 0x1004 = some 0x1110 := by decide
 
 /-! ## the full statement, and why it is only partial -/
 
